@@ -1,4 +1,5 @@
 import Pymeeus.Refine.FindersJde
+import Pymeeus.Refine.FinderAngles
 /-
 C13 — Planetary event finders return real events, in order, none skipped.
 
@@ -475,6 +476,34 @@ theorem perihelia_and_aphelia_alternate : ∀ r ∈ generatedPA, ∀ n : ℤ, |(
   have a2 : |(n : ℝ) + 1| ≤ ((r.kMax : ℚ) : ℝ) := by
     have := abs_add_le (n : ℝ) 1; rw [abs_one] at this; linarith
   exact ⟨pa_jde_lt_half tR true false a0 a1 (le_refl _), pa_jde_lt_half tR false true a1 a2 (by linarith)⟩
+
+/-- Every multiplier `j` in `sin(j*m)` / `cos(j*m)` of every series (time and elongation) is a whole number. -/
+theorem series_multipliers_integral : ∀ r ∈ generatedFinders,
+    r.corr.integral = true ∧ (∀ e, r.elon = some e → e.integral = true) := by decide +kernel
+
+/-- The `Angle(...)` normalisations are invisible: `m = Angle(m0 + k*m1).to_positive().rad()` and
+    `aa = Angle(c0 + c1*t).rad()` differ from the raw angles by whole turns only, so in exact arithmetic `corr` is
+    Meeus' formula evaluated at the raw angles `radians(M0 + k M1)` and `radians(c0 + c1 t)` - for every count `k`,
+    no range restriction.  (A reduction by anything but whole turns, or a non-integral multiplier, would break it.) -/
+theorem angle_normalisation_invisible : ∀ r ∈ generatedFinders, ∀ k : ℤ,
+    finder_corr r k =
+      evalE (finder_t r (finder_jde0 r k)) (pradians (ofDec r.M0 + ofInt k * ofDec r.M1))
+        (r.aux.map fun c => pradians (ofDec c.1 + ofDec c.2 * finder_t r (finder_jde0 r k))) r.corr := by
+  intro r hr k
+  unfold finder_corr
+  exact evalE_congr _ (finder_m_congr r k) (finder_aux_congr r _) r.corr (series_multipliers_integral r hr).1
+
+/-- The mean anomaly handed to the series is in the first turn: `0 ≤ m < 2π` (what `.to_positive()` is for). -/
+theorem mean_anomaly_in_first_turn : ∀ r : Finder, ∀ k : ℤ, 0 ≤ finder_m r k ∧ finder_m r k < 2 * Real.pi := by
+  intro r k
+  obtain ⟨a, b⟩ := to_positive_range _ (reduce_deg_range (ofDec r.M0 + ofInt k * ofDec r.M1))
+  unfold finder_m pradians
+  have hp := Real.pi_pos
+  constructor
+  · positivity
+  · have : fnd_to_positive (fnd_reduce_deg (ofDec r.M0 + ofInt k * ofDec r.M1)) * (Real.pi / 180) < 360 * (Real.pi / 180) :=
+      mul_lt_mul_of_pos_right b (by positivity)
+    linarith
 
 /-! ### The hypotheses are satisfiable -/
 
